@@ -668,3 +668,4 @@ from . import lib_fmt as _lib_fmt      # structured strings for number formattin
 from . import lib_calc as _lib_calc    # jacobian / quad / fsolve models
 from . import interp as _interp_mod
 _lib_calc.install(_interp_mod)
+from . import lib_filter as _lib_filter   # exact summaries of filter loops / filtered comprehensions
